@@ -268,6 +268,72 @@ def strategy():
 _APP = {}
 
 
+SHARED = {'rows': [{'id': 1, 'tags': ['a', 'b']}, {'id': 2, 'tags': []}], 'meta': {'hole': None, 'n': 3}}
+
+
+class _Once(object):
+    """to_dict() fails the first time it is asked"""
+    def __init__(self):
+        self.calls = 0
+
+    def to_dict(self):
+        self.calls += 1
+        if self.calls == 1:
+            raise RuntimeError('not ready yet')
+        return {'ready': True}
+
+
+def shared_history(case, ctx):
+    """a long-lived structure returned by an endpoint: a render that stops half-way (an object the renderer refuses, nested inside
+    it) must not change how the very same containers are rendered afterwards"""
+    renderer, poison, abandon = case['renderer'], case['poison'], case['abandon']
+    app, _cell = app_and_cell()
+    path = '/shared/' + renderer
+    q = 'callback=cb' if renderer == 'jsonp' else ''
+    hole = {'plain': Plain(7), 'gen': (i for i in range(3)), 'once': _Once(), 'nan-key': {float('nan'): 1}}[poison]
+    SHARED['meta']['hole'] = hole
+    SHARED['rows'][1]['tags'] = [hole] if poison != 'nan-key' else []
+    try:
+        if abandon:
+            # the client goes away after the first chunk of the body
+            from vlib.wsgi import make_environ
+            env = make_environ(path, 'GET', q)
+            it = app(env, lambda *a, **k: (lambda data: None))
+            try:
+                next(iter(it), None)
+            except Exception:
+                pass
+            finally:
+                if hasattr(it, 'close'):
+                    it.close()
+        else:
+            call(app, path, query=q)          # whatever it answers: judged by the per-value part, not here
+        ctx.requests += 1
+    finally:
+        SHARED['meta']['hole'] = None
+        SHARED['rows'][1]['tags'] = []
+    for again in (1, 2):
+        r = call(app, path, query=q)
+        ctx.requests += 1
+        what = 'GET %s?%s after a render of the same structure stopped half-way (%s%s)' % (path, q, poison, ', client gone' if abandon else '')
+        if r.exc is not None or r.status != 200:
+            ctx.mismatch('escaped' if r.exc is not None else 'json-renderer-status', '%s: %s %r %r' % (what, r.status, r.exc, r.body[:120]), case)
+            return
+        text = r.body.decode('utf8')
+        if renderer == 'jsonp':
+            text = text[len('cb('):-2]
+        try:
+            got = json.loads(text)
+        except ValueError as e:
+            ctx.mismatch('json-invalid', '%s: %s' % (what, e), case)
+            return
+        if got != {'rows': [{'id': 1, 'tags': ['a', 'b']}, {'id': 2, 'tags': []}], 'meta': {'hole': None, 'n': 3}}:
+            ctx.mismatch('json-roundtrip', '%s: parsed back as %r' % (what, got), case)
+            return
+    ctx.event('shared-structure-history')
+    ctx.nt(['shared', renderer, poison, abandon], sample=False)
+
+
 def app_and_cell():
     if not _APP:
         from clastic import Application
@@ -282,8 +348,13 @@ def app_and_cell():
 
         def ep_plain():
             return build(cell['spec'])
+        def ep_shared():
+            return SHARED          # one long-lived structure, the very same objects on every request
+
         # the HTML page of render_basic shows the endpoint's name and docstring: one route with a hostile docstring, one without any
-        routes = [('/basic', ep, render_basic), ('/basicplain', ep_plain, render_basic), ('/json', ep, render_json), ('/jsondev', ep, render_json_dev),
+        routes = [('/basic', ep, render_basic), ('/basicplain', ep_plain, render_basic),
+                  ('/shared/basic', ep_shared, render_basic), ('/shared/json', ep_shared, render_json), ('/shared/jsondev', ep_shared, render_json_dev),
+                  ('/shared/stream', ep_shared, JSONRender(streaming=True)), ('/shared/jsonp', ep_shared, JSONPRender()), ('/json', ep, render_json), ('/jsondev', ep, render_json_dev),
                   ('/stream', ep, JSONRender(streaming=True)), ('/streamdev', ep, JSONRender(streaming=True, dev_mode=True)),
                   ('/jsonp', ep, JSONPRender()), ('/jsonpdev', ep, JSONPRender(dev_mode=True))]
         _APP['app'] = Application(routes)
@@ -561,6 +632,16 @@ def shards(tier, seed):
 
 
 def run_shard(spec, ctx):
+    if ctx.shard == 0:
+        for renderer in ('json', 'jsondev', 'stream', 'jsonp', 'basic'):
+            for poison in ('plain', 'gen', 'once', 'nan-key'):
+                for abandon in (False, True):
+                    case = {'kind': 'shared', 'renderer': renderer, 'poison': poison, 'abandon': abandon}
+                    ctx.case(case)
+                    try:
+                        shared_history(case, ctx)
+                    except Exception as e:
+                        ctx.classify_exc(e, case, 'shared')
     ctx.hyp(strategy(), body, spec['n'], kind='case')
     if 'unorderable-mapping-keys' in ctx.known_sigs and ctx.shard == 0:
         rep = [['kdict', [[['int', '1'], ['str', 'a']], [['str', 'b'], ['int', '2']]]], 'basic', None, None, None]
@@ -574,4 +655,7 @@ def run_shard(spec, ctx):
 
 
 def replay(case, kind, ctx):
+    if isinstance(case, dict) and case.get('kind') == 'shared':
+        shared_history(case, ctx)
+        return
     body(case, ctx)
